@@ -101,9 +101,13 @@ PoolC01 == <<
   \* the same rule under a second tag is a different rule
   [W("abb") EXCEPT !.tag = "t1"],
   \* a pattern-less catch-all next to a token-less patterned rule with the same option mask (one fuse group)
-  [W("*") EXCEPT !.pos = {"image"}], [W("/a*b") EXCEPT !.pos = {"image"}]
+  [W("*") EXCEPT !.pos = {"image"}], [W("/a*b") EXCEPT !.pos = {"image"}],
+  \* a hostname anchor followed by '*': the rest of the pattern is NOT pinned on its left, so its first token may
+  \* be the tail of a longer URL token and must not be used as the bucket key
+  [W("ab.ba*abb/a") EXCEPT !.left = "dpipe"]
 >>
 ReqsC01 == <<
+  MkReq("https", "ab.ba", "/babb/a", "script", "x.com"),
   MkReq("https", "ab.ba", "/ab/ba/bab", "script", "ab.ba"),
   MkReq("https", "ab.ba", "/bab/ba/bab", "script", "ab.ba"),
   MkReq("https", "x.com", "/bab/ba/bab", "image", "ba.com"),
